@@ -23,6 +23,9 @@ v("c03-reverse-half","C03","internal/scolumn/column.go","		result.ltValue, resul
 v("c03-compare-wrong-entry","C03","internal/fcolumn/column.go","	if x < y {\n		return c.ltValue\n	}","	if x < y {\n		return c.gtValue\n	}","R10")
 v("c03-null-entry","C03","internal/ecolumn/column.go","		if !y.isNull() {\n			return c.nullLtValue\n		}","		if !y.isNull() {\n			return c.nullGtValue\n		}","R10")
 v("c03-less-notequal-terminal","C03","internal/sort/sorter.go","		if r == column.GreaterThan {\n			return false\n		}","		if r != column.Equal {\n			return false\n		}","R10")
+v("c03-heap-abs-lo","C03","internal/sort/sorter.go","		siftDown(data, lo, i, first)","		siftDown(data, lo+a, i, first)","R120","break","absolute index passed as heap coordinate: right only for ranges starting at 0")
+v("c03-ninther-sum","C03","internal/sort/sorter.go","		s := (hi - lo) / 8","		s := (hi + lo) / 8","R120","break","step of the ninther depends on where the range lies")
+v("c03-pivot-mid-offset","C03","internal/sort/sorter.go","	m := int(uint(lo+hi) >> 1) // Written like this to avoid integer overflow.","	m := lo + (hi-lo)/2","","benign","midpoint written as lo + half the length")
 # C04/C05
 v("c04-hash-only","C04","internal/grouper/grouper.go","if !e.occupied || e.hash == hashSum && equals(t.comparables, i, e.firstPos) {","if !e.occupied || e.hash == hashSum {","R11")
 v("c04-grow-oldmask","C04","internal/grouper/grouper.go","	bitMask := newLen - 1\n","	bitMask := uint32(len(t.entries)) - 1\n","R38")
